@@ -17,7 +17,7 @@ META = dict(
     bounds=dict(quick='9 distinguishers x every rejection kind that applies (row-count mismatch, trace length change, word count change, non-array arguments, DPA data outside {0,1}, '
                       'automatic classes with a value above 255, template data with two words, matching before build), inserted as the very first call and after an accepted batch '
                       'whose trace values are symbolic; followed by an accepted batch and compute()',
-                thorough='same with two accepted batches before the rejection'),
+                thorough='same with three accepted batches before the rejection'),
     assumptions=['only calls that raise are rejections: a call that is (wrongly or rightly) accepted is outside this property',
                  'the accumulated state is the result of symbolic batches, so the frame condition is checked for arbitrary accumulator contents of that shape'],
     outside=['exceptions raised in the middle of an accumulation kernel (no such path exists for valid dtypes)'],
@@ -32,7 +32,7 @@ def prepare(tier, seed):
 
 
 def jobs(tier, seed):
-    return [dict(name=f'{d}-{pos}', dist=d, pos=pos, pre=(1 if tier == 'quick' else 2)) for d in DISTS for pos in ('first', 'later')]
+    return [dict(name=f'{d}-{pos}', dist=d, pos=pos, pre=(1 if tier == 'quick' else 3)) for d in DISTS for pos in ('first', 'later')]
 
 
 def make(dist):
